@@ -39,6 +39,9 @@ fn raw_cnt(c: &SeqCase, oc: &[Cnt], nc: &[Cnt], deadline: Option<Instant>) -> Re
 }
 
 pub const POST_EXPIRY_FACTOR: u64 = 4;
+/// whole-run budget for a call whose (real) deadline has passed before it starts: prefix/suffix
+/// scans and Patience's hashing happen before the first check
+pub const REAL_PAST_FACTOR: u64 = 8;
 /// the capture pipeline adds Compact's clean-up (prefix/suffix scans between neighbouring ops)
 pub const CAPTURE_POST_EXPIRY_FACTOR: u64 = 8;
 
@@ -401,7 +404,23 @@ fn check_case(case: &Case, obs: &mut Obs) -> Verdict {
     }
     // the real clock: a deadline in the past behaves like expiry at probe 0, a far one like none
     if let Some(past) = Instant::now().checked_sub(Duration::from_secs(5)) {
-        match raw_cnt(c, &oc, &nc, Some(past)) {
+        counting::reset();
+        let real_past = raw_cnt(c, &oc, &nc, Some(past));
+        let total_past = counting::total();
+        counting::reset();
+        if n + m > 0 {
+            obs.metric("real deadline in the past: total comparisons / (N+M)", total_past as f64 / (n + m) as f64);
+        }
+        // with the REAL clock every comparison of this run happens after expiry, however rarely the
+        // clock is consulted (probe-indexed time cannot see a throttled probe)
+        let bound_real = REAL_PAST_FACTOR * (n + m) as u64 + 16;
+        if total_past > bound_real {
+            return Verdict::Fail(format!(
+                "{}: {} element comparisons although the deadline had passed before the call, more than {}*(N+M)+16 = {} (N={}, M={})",
+                name, total_past, REAL_PAST_FACTOR, bound_real, n, m
+            ));
+        }
+        match real_past {
             Ok(ev) => {
                 similar::verif::clock::install(Some(0));
                 let want = raw_cnt(c, &oc, &nc, Some(far_future()));
@@ -599,11 +618,11 @@ impl Prop for C07 {
     const ID: &'static str = "C07";
     const LEVEL: &'static str = "fault_enumeration";
     fn rule() -> String {
-        "cases = (algorithm, old, new, ranges, entry point in {algorithms::diff_deadline, diff_slices_deadline}); for each case the number of deadline probes T is learnt with a never-expiring virtual clock and then EVERY expiry index k in 0..=T is executed (T <= 64) or {0..7, T-1, T} plus 16 generated indices (T > 64) ('executions' counts runs). Families: the shared small mixture, unrelated 50-400 item sequences over alphabets 2-6 (many probes), and the Patience anchor/gap family. Oracle per k: C01 stream validator, finish once and last, C02+C09 oracles on capture_diff_deadline, at most 4*(N+M)+16 element comparisons after expiry (counting PartialEq; through capture_diff_deadline, whose clean-up compares items too, at most 8*(N+M)+16; measured maxima under metrics_max), k >= T and never-expiring clock => identical to no deadline; plumbing: TextDiffConfig::deadline / ::timeout / capture_diff_slices_deadline give valid scripts at every k, the ops of capture_diff_deadline when the clock expires at the first probe or never, and consult the clock whenever the direct call does; real clock: deadline in the past == expiry at probe 0, deadline one hour ahead == no deadline, a builder on which deadline(past) is set last (alone, after timeout(1 h), after deadline(far)) == expired; wall-clock stage: unrepresentably large timeouts == no deadline (no panic), and a timeout counts from the start of the diff (a builder configured 1.7 s before use with timeout(1.5 s) still gives the exact diff of a tiny input; a mismatch must repeat 3 times). 1 random case in 40 is an expensive input (257-400 items; LCS tables of 66 000-160 000 cells) on which only never-expiring deadlines are executed (virtual, real, capture_diff_deadline, TextDiffConfig::deadline/timeout) and compared with no deadline. Non-trivial = T >= 2 and some expiry index changes the result; distinct = distinct serialized case.".into()
+        "cases = (algorithm, old, new, ranges, entry point in {algorithms::diff_deadline, diff_slices_deadline}); for each case the number of deadline probes T is learnt with a never-expiring virtual clock and then EVERY expiry index k in 0..=T is executed (T <= 64) or {0..7, T-1, T} plus 16 generated indices (T > 64) ('executions' counts runs). Families: the shared small mixture, unrelated 50-400 item sequences over alphabets 2-6 (many probes), and the Patience anchor/gap family. Oracle per k: C01 stream validator, finish once and last, C02+C09 oracles on capture_diff_deadline, at most 4*(N+M)+16 element comparisons after expiry (counting PartialEq; through capture_diff_deadline, whose clean-up compares items too, at most 8*(N+M)+16; measured maxima under metrics_max), k >= T and never-expiring clock => identical to no deadline; plumbing: TextDiffConfig::deadline / ::timeout / capture_diff_slices_deadline give valid scripts at every k, the ops of capture_diff_deadline when the clock expires at the first probe or never, and consult the clock whenever the direct call does; real clock: a run whose deadline passed before the call makes at most 8*(N+M)+16 comparisons in total (this sees a probe that is consulted too rarely, which probe-indexed time cannot), deadline in the past == expiry at probe 0, deadline one hour ahead == no deadline, a builder on which deadline(past) is set last (alone, after timeout(1 h), after deadline(far)) == expired; wall-clock stage: unrepresentably large timeouts == no deadline (no panic), and a timeout counts from the start of the diff (a builder configured 1.7 s before use with timeout(1.5 s) still gives the exact diff of a tiny input; a mismatch must repeat 3 times). 1 random case in 40 is an expensive input (257-400 items; LCS tables of 66 000-160 000 cells) on which only never-expiring deadlines are executed (virtual, real, capture_diff_deadline, TextDiffConfig::deadline/timeout) and compared with no deadline. Non-trivial = T >= 2 and some expiry index changes the result; distinct = distinct serialized case.".into()
     }
     fn assumptions() -> Vec<String> {
         vec![
-            "time is probe-indexed (virtual clock hook): a change that merely probes less often is not observable".into(),
+            "time is probe-indexed (virtual clock hook): a change that merely probes less often is only observable through the real-clock run with an already expired deadline (total comparison budget)".into(),
             "the promptness constant 4 has >= 4x head-room over the measured maximum (about 0.8*(N+M))".into(),
             "wasm32 behaviour is out of scope".into(),
         ]
